@@ -533,6 +533,68 @@ fn main() {
         );
     }
 
+    // ------------------------------------------------------------ super() after a block has ended
+    // Which block a `super()` belongs to is bookkeeping the VM restores when a nested block ends
+    // (seeded change C07-9 kept the name of the block that had just finished: the lineage lookup of
+    // the next super() then hit an `expect`). super() before, inside, between and after nested
+    // blocks, with and without an ancestor, whole and by block.
+    {
+        let bodies: Vec<(&str, &str)> = vec![
+            ("after-nested", "{% block a %}{% block b %}inner{% endblock b %}+{{ super() }}{% endblock a %}"),
+            ("before-and-after-nested", "{% block a %}{{ super() }}{% block b %}i{% endblock b %}{{ super() }}{% endblock a %}"),
+            ("between-two-nested", "{% block a %}{% block b %}1{% endblock b %}{{ super() }}{% block c %}2{% endblock c %}{{ super() }}{% endblock a %}"),
+            ("after-doubly-nested", "{% block a %}{% block b %}{% block c %}x{% endblock c %}{{ super() }}{% endblock b %}{{ super() }}{% endblock a %}"),
+            ("nested-has-super-too", "{% block a %}{% block b %}{{ super() }}{% endblock b %}{{ super() }}{% endblock a %}"),
+            ("after-nested-in-capture", "{% block a %}{% set z %}{% block b %}i{% endblock b %}{% endset %}{{ z }}{{ super() }}{% endblock a %}"),
+            ("after-nested-in-loop", "{% block a %}{% for i in [1, 2] %}{% block b %}i{% endblock b %}{{ super() }}{% endfor %}{% endblock a %}"),
+            ("sibling-then-super", "{% block b %}B{% endblock b %}{% block a %}{{ super() }}{% endblock a %}"),
+        ];
+        let bases: Vec<(&str, Option<&str>)> = vec![
+            ("no-ancestor", None),
+            ("ancestor-defines-a", Some("<{% block a %}base-a{% endblock a %}>")),
+            ("ancestor-defines-a-b-c", Some("<{% block a %}A{% block b %}B{% block c %}C{% endblock c %}{% endblock b %}{% endblock a %}>")),
+        ];
+        let n_items = (bodies.len() * bases.len()) as u64;
+        run.family(
+            Family::new(
+                "super-after-block-end",
+                n_items,
+                "8 block bodies in which super() comes after (between, inside, before) nested blocks that have ended x 3 ancestries (none: the body is the root; an ancestor defining a; one defining a, b, c), also as the middle of a three-level chain: render, render_to, render_block of a / b / c - text or error, never a panic",
+            )
+            .describe(|i| json!({"body": bodies[i as usize / bases.len()].0, "ancestry": bases[i as usize % bases.len()].0})),
+            |item, acc: &mut Acc| {
+                let (bname, body) = bodies[item as usize / bases.len()];
+                let (aname, base) = bases[item as usize % bases.len()];
+                let mut templates: Vec<(String, String)> = vec![];
+                let entry = match base {
+                    None => {
+                        templates.push(("t".into(), body.to_string()));
+                        "t"
+                    }
+                    Some(b) => {
+                        templates.push(("base".into(), b.to_string()));
+                        templates.push(("t".into(), format!("{{% extends \"base\" %}}{body}")));
+                        templates.push(("leaf".into(), "{% extends \"t\" %}{% block b %}L{{ super() }}{% endblock b %}".to_string()));
+                        "t"
+                    }
+                };
+                let case = || json!({"body": bname, "ancestry": aname, "templates": templates});
+                let prog = Program { templates: templates.clone(), entry: entry.to_string(), blocks: vec!["a".into(), "b".into(), "c".into()], components: vec![] };
+                let Ok(t) = build(&prog) else {
+                    // refused at registration (a child block unknown to the ancestor, ...): fine
+                    acc.case(true, "rejected");
+                    return;
+                };
+                let ctx = bind(&[V::I64(1), V::I64(2), V::I64(3)]);
+                totality(&t, &prog, &ctx, acc, "super-after-block-end", "super-after-block-end", true, &case);
+                if base.is_some() {
+                    let leaf = Program { entry: "leaf".into(), ..Program { templates: templates.clone(), entry: String::new(), blocks: prog.blocks.clone(), components: vec![] } };
+                    totality(&t, &leaf, &ctx, acc, "super-after-block-end", "super-after-block-end", true, &case);
+                }
+            },
+        );
+    }
+
     // ------------------------------------------------------------ unbounded component recursion, every route
     // "never ... overflows": a component that calls itself without end must hit the nesting limit
     // whatever lies between two calls - nothing, an include, two includes, an extending template, a
